@@ -137,6 +137,25 @@ func TestExplore(t *testing.T) {
 			st.ChainEvents += len(seqv)
 		}
 	}
+	// a pool wider than a /24 whose gateway lies beyond its first 256 addresses: one subscriber allocating and
+	// releasing walks through the pool's free list (released addresses go to its end), so every address the pool
+	// would hand out is judged - the special addresses of such a pool are reached only by the 256th request
+	{
+		a := dhcpPoolAdapterGW(G4_23, 0, 257)
+		sys := NewPoolSystem(a, 3, nil)
+		var seqv []core.Event
+		for i := 0; i < a.Geo.NUnits()+8; i++ {
+			seqv = append(seqv, core.Event{"op": "alloc", "sub": 1 + i%2, "arg": -1}, core.Event{"op": "release", "sub": 1 + i%2, "arg": -1})
+		}
+		tab, pr := core.Chain(sys, a.Name()+"#walk", seqv, true)
+		if pr != nil {
+			st.Panics = append(st.Panics, *pr)
+		} else {
+			bundle.Systems = append(bundle.Systems, tab)
+			st.Chains++
+			st.ChainEvents += len(seqv)
+		}
+	}
 	if err := core.WriteJSON(out, "bundle.json", bundle); err != nil {
 		t.Fatal(err)
 	}
